@@ -188,6 +188,10 @@ def check(ctx):
     from . import C12
 
     C12.check(ctx)
+    # ---------------- DataNode identity = a content token of its value (not the value's repr)
+    dnt = ctx.model.module("dask/_task_spec.py").func("DataNode.__dask_tokenize__")
+    ok = (all(eqv(r.value, "(type(self).__name__, tokenize(self.value))") for r in returns(dnt)) and bool(returns(dnt)))
+    ctx.ob("INJ.datanode-token", dnt, "DataNode.__dask_tokenize__ = (type name, tokenize(self.value))", ok, "" if ok else "without a content hash the identity of a data node is the repr of its payload: arrays that differ past the printed digits, or in an elided middle, make equal nodes with different values")
 
 
 VARIANTS = [
